@@ -25,7 +25,7 @@ PROBES = ["style_segments", "style_edges", "style_alternating", "style_mixed", "
           "multiline_o", "multiline_u", "group_before_items", "reversed_edge_traversal", "noncontiguous",
           "ambiguous", "single_edge_item", "set_with_path", "set_nested", "walk_len_ge4", "contradicting_tags", "reader_during_delivery",
           "early_answer", "early_error", "nested2", "nested2_minus", "sub_edge_boundary",
-          "unnamed_edge_induced"]
+          "unnamed_edge_induced", "wrong_orientation"]
 
 
 def edge_line(eid, a, oa, b, ob, seglen, rng):
@@ -231,7 +231,15 @@ def gen(streams, tier, i):
                          if a != b and not loose_fitting((a, oa), (b, ob), edges)]
                 amb = [(p, c) for p in [(s, o) for s in segs for o in "+-"] for c in [(s, o) for s in segs for o in "+-"]
                        if len(fitting(p, c, edges)) >= 2]
-                if amb and wr.random() < 0.5:
+                if len(walk) >= 3 and wr.random() < 0.35:
+                    # an edge is followed by the segment it leads to, written in the other orientation
+                    k_ = 2 * wr.randint(1, (len(walk) - 1) // 2)
+                    items = ["%s%s" % x for x in walk[:k_]] + ["%s%s" % (walk[k_][0], inv(walk[k_][1]))] + \
+                            ["%s%s" % x for x in walk[k_ + 1:]]
+                    if walk[k_][0] == walk[k_ - 2][0]:
+                        continue      # (an edge of a segment with itself: the other orientation may fit too)
+                    groups.append({"rt": "O", "name": name, "expect": "error", "why": "wrong_orientation"})
+                elif amb and wr.random() < 0.5:
                     p, c = wr.choice(amb)
                     items = ["%s%s" % p, "%s%s" % c]
                     groups.append({"rt": "O", "name": name, "expect": "error", "why": "ambiguous"})
